@@ -95,6 +95,42 @@ def run_machine(cases, chunk=60, workers=8, timeout=1800, parallel=2):
     return recs, tot[0], tot[1], viol
 
 
+def run_trace(cases, chunk=150, workers=4, timeout=1800, parallel=3):
+    """TraceLR.tla: validate recorded driver traces. -> (set of accepted ids, {id: stuck record}, states, violations)"""
+    from concurrent.futures import ThreadPoolExecutor
+    ok, stuck, viol = set(), {}, []
+    tot = [0]
+    chunks = [cases[i:i + chunk] for i in range(0, len(cases), chunk)]
+
+    def one(ch):
+        wd = mkscratch("trace")
+        try:
+            cf = os.path.join(wd, "cases.json")
+            with open(cf, "w") as f:
+                json.dump(ch, f)
+            return ch, run_tlc("TraceLR", "TraceLR.cfg", env={"RUN_CASES": cf}, workers=workers, timeout=timeout,
+                               workdir=wd, cont=True)
+        finally:
+            rmtree(wd)
+
+    with ThreadPoolExecutor(max_workers=parallel) as ex:
+        for ch, r in ex.map(one, chunks):
+            tot[0] += r.distinct
+            for tag, obj in r.prints:
+                if tag == "TRACEOK":
+                    ok.add(obj["id"])
+                elif tag == "STUCK":
+                    stuck.setdefault(obj["id"], obj)
+            for v in r.violations:
+                st = vlib.trace_last_state(v["trace"])
+                try:
+                    cid = ch[int(st["c"]) - 1]["id"]
+                except Exception:
+                    raise ToolError("cannot attribute TraceLR violation %s:\n%s" % (v["name"], v["trace"][-1500:]))
+                viol.append({"inv": v["name"], "id": cid})
+    return ok, stuck, tot[0], viol
+
+
 # --------------------------------------------------------------------------
 # real code: lalrpop + rustc + run
 # --------------------------------------------------------------------------
